@@ -295,6 +295,33 @@ func cdxAutoRef(c *Ctx) {
 	c.check(hasPrefixLit[0] == prefix+"-", R, "cdx-auto-ref#prefix", pos,
 		fmt.Sprintf("eraser prefix %q = NodeIdentifierPrefix+\"-\"", hasPrefixLit[0]),
 		fmt.Sprintf("eraser tests prefix %q but generated identifiers start with %q", hasPrefixLit[0], prefix+"-"))
+	// the flag test applies to the flag segment (the part before the first "--"), not to the
+	// whole identifier: user seeds containing "-auto" must not be erased
+	segOK := false
+	for _, d := range wr {
+		defs := singleDefs(d.pkg, d.fd.Body)
+		for _, cs := range callsIn(d.pkg, d.fd.Body) {
+			if cs.callee.FullName() != "strings.Contains" || len(cs.call.Args) != 2 {
+				continue
+			}
+			if v, ok := constOf(d.pkg, cs.call.Args[1]); !ok || !v.isStr() || v.str() != containsLit[0] {
+				continue
+			}
+			if ix, ok := cs.call.Args[0].(*ast.IndexExpr); ok {
+				if k, ok := constOf(d.pkg, ix.Index); ok && k.isInt() && k.int() == 0 {
+					if def, ok := defs[objOf(d.pkg, ix.X)]; ok {
+						if sp, ok := def.(*ast.CallExpr); ok && len(sp.Args) == 2 {
+							if sep, ok := constOf(d.pkg, sp.Args[1]); ok && sep.isStr() && sep.str() == "--" && strings.Contains(types.ExprString(sp.Args[0]), "BOMRef") {
+								segOK = true
+							}
+						}
+					}
+				}
+			}
+		}
+	}
+	c.check(segOK, R, "cdx-auto-ref#flag-segment", pos, "the flag is looked for in the segment before the first \"--\" only",
+		"the auto flag is not tested on strings.Split(ref, \"--\")[0]: an identifier generated from a user seed that merely contains the flag text (protobom--automake-1.16) loses its bom-ref while dependencies still point at it")
 	c.check(containsLit[0] == "-"+flag || strings.TrimPrefix(containsLit[0], "-") == flag, R, "cdx-auto-ref#flag", pos,
 		fmt.Sprintf("eraser flag %q matches generator flag %q", containsLit[0], flag),
 		fmt.Sprintf("eraser looks for %q but the reader generates identifiers flagged %q", containsLit[0], flag))
